@@ -70,4 +70,5 @@ def main(tier):
     chk.run("R-ELEMSIZE", V.elemsize, cx.repo, cx.schema, cx.sites, floor=4)
     chk.run("R-ANONHOME", SY.anonhome, cx.repo, floor=1)
     chk.run("R-INFGUARD", BR.infguard, cx.repo, floor=6)
+    chk.run("R-REFHEAD", RR.refhead, cx.repo, floor=1)
     return chk.finish()
